@@ -35,15 +35,26 @@ JUDGED_STEPS = ("SENDING_METADATA", "SENDING_FILE_DATA", "RETRANSMITTING", "WAIT
 class NakMonitor(Monitor):
     def __init__(self, w):
         self.md_raw = None
+        self.eof_emitted = False
+        self.flagged = False
         self.valid_judged = 0
         self.invalid_judged = 0
 
     def on_call(self, w, rec) -> None:
-        if rec.ent != "a" or rec.hk != "src" or rec.op != "sm":
+        if rec.ent != "a" or rec.hk != "src":
             return
         for em in rec.emitted:
             if em.kind == "MD" and self.md_raw is None:
                 self.md_raw = em.raw
+            if em.kind == "EOF":
+                self.eof_emitted = True
+        if rec.op != "sm":
+            return
+        # resuming where it was: the source cannot wait for the acknowledgement of an EOF it never emitted
+        # (serving or rejecting a NAK must not swallow the EOF that was due in the same call)
+        if rec.post.step in ("WAITING_FOR_EOF_ACK", "WAITING_FOR_FINISHED") and not self.eof_emitted and not w.cfg.metadata_only and not self.flagged:
+            self.flagged = True
+            w.violate("C08.eof_swallowed", f"step={rec.pre.step}->{rec.post.step} in={rec.inb_kind} exc={rec.exc!r}", "no EOF PDU emitted so far")
         if rec.inb_kind != "NAK":
             return
         c = w.cfg
